@@ -26,6 +26,13 @@ func init() {
 					cases = append(cases, Case{ID: "C11 " + mode + " " + script, Pkg: "", Fn: "ZZC11", Args: []string{mode, script, spec, "", ""}, Tag: mode})
 				}
 			}
+			// several variables missing at once: the error must be the same one every time
+			for _, mode := range []string{"determinism", "reentrancy"} {
+				script, spec := instantiate([]string{sendFixed("USD", "{ max %C from @a @b }", "{ max %C to @d remaining to @e }")}, "USD", map[string][2]string{"_drop": {"", "n1,c2,c3"}})
+				cases = append(cases, Case{ID: "C11 " + mode + " missing-variables " + script, Pkg: "", Fn: "ZZC11", Args: []string{mode, script, spec, "", ""}, Tag: mode})
+				script, spec = instantiate([]string{sendFixed("USD", "@a", "@d"), "set_tx_meta(\"k\", $x)", "set_tx_meta(\"j\", $y)"}, "USD", map[string][2]string{"x": {"number", "num"}, "y": {"number", "num"}, "_drop": {"", "x,y"}})
+				cases = append(cases, Case{ID: "C11 " + mode + " missing-variables " + script, Pkg: "", Fn: "ZZC11", Args: []string{mode, script, spec, "", ""}, Tag: mode})
+			}
 			// runs of other scripts in between (process history): undeclared variables must stay undeclared
 			other := "vars {\n  monetary $n1\n  monetary $x\n  monetary $c2\n}\nsend $n1 (\n  source = @world\n  destination = @z\n)\nsend $x (\n  source = @world\n  destination = @z\n)"
 			for _, target := range []string{"send $x (\n  source = @world\n  destination = @d\n)", "vars {\n  monetary $n1\n}\nsend $n1 (\n  source = { @a @b }\n  destination = { max $x to @d remaining to @e }\n)",
